@@ -116,6 +116,7 @@ var schemas = map[string][]field{
 	"gRIBIConnection":   {{"redundMode", "redundMode", kEnum}},
 	"ModifyRequest":     {{"Params", "Params", kPtr("SessionParameters")}, {"ElectionId", "ElectionId", kPtr("Uint128")}, {"Operation", "Operation", kPtr("Unit")}},
 	// the client (client/gribiclient.go)
+	"pendingQueue": {{"Ops", "Ops", kind{k: "map", s: "PendingOp", t: []kind{kNat}}}, {"Election", "Election", kPtr("ElectionReqDetails")}, {"SessionParams", "SessionParams", kPtr("SessionParamReqDetails")}},
 	"IPv4EntryC":  {{"Prefix", "Prefix", kStr}},
 	"IPv6EntryC":  {{"Prefix", "Prefix", kStr}},
 	"LabelEntryC": {{"LabelUint64", "LabelUint64", kNat}},
@@ -142,7 +143,7 @@ var leanStruct = map[string]string{
 	"IPv4EntryC": "IPv4EntryC", "IPv6EntryC": "IPv6EntryC", "LabelEntryC": "LabelEntryC", "NHGEntryC": "NHGEntryC", "NHEntryC": "NHEntryC", "AFTOperationC": "AFTOperationC", "ModifyRequestC": "ModifyRequestC",
 	"AFTErrorDetails": "AFTErrorDetails", "AFTResultC": "AFTResultC", "SessionParametersResult": "SessionParametersResult", "ModifyResponseC": "ModifyResponseC", "PendingOp": "PendingOp",
 	"ElectionReqDetails": "ElectionReqDetails", "SessionParamReqDetails": "SessionParamReqDetails", "OpDetailsResults": "OpDetailsResults", "COpResult": "COpResult",
-	"AFTResultList": "(List AFTResultC)", "Bool": "Bool",
+	"AFTResultList": "(List AFTResultC)", "Bool": "Bool", "pendingQueue": "PendingQueue",
 }
 
 func leanType(k kind) string {
@@ -612,6 +613,10 @@ func trExpr(e ast.Expr, en env) val {
 			}
 			if a.kd.k == "int" && b.kd.k == "int" {
 				return val{lean: "(" + a.lean + " + " + b.lean + ")", kd: kInt}
+			}
+			if a.kd.k == "int" && b.kd.k == "nat" {
+				// a count (a Go int that only ever counts up from 0) plus a length
+				return val{lean: "(" + a.lean + " + " + b.lean + ")", kd: kNat}
 			}
 		case token.SUB:
 			a, b := trExpr(v.X, en), trExpr(v.Y, en)
@@ -1251,7 +1256,7 @@ func trCall(c *ast.CallExpr, en env) []val {
 	fn := render(c.Fun)
 	if fn == "len" && len(c.Args) == 1 {
 		x := trExpr(c.Args[0], en)
-		if x.kd.k != "list" {
+		if x.kd.k != "list" && x.kd.k != "map" {
 			fail(c.Pos(), "len of %s", x.kd)
 		}
 		return []val{{lean: "(" + atom(x.lean) + ".length)", kd: kNat}}
@@ -2182,6 +2187,9 @@ func trStmts(list []ast.Stmt, en env, k cont) string {
 					e1.declare(n.Name, val{lean: "none", kd: kind{k: "status"}, path: p})
 				case "bool":
 					e1.declare(n.Name, val{lean: "false", kd: kBool})
+				case "int":
+					// a counter: it starts at 0 and the subset has no subtraction on it
+					e1.declare(n.Name, val{lean: "(0 : Nat)", kd: kNat})
 				case "*spb.ModifyResponse":
 					p := fresh("path")
 					e1.isNil[p] = true
